@@ -139,6 +139,9 @@ func (w *World) genesis(n *Node) {
 }
 
 func (w *World) netDone() bool {
+	if w.timeUp {
+		return true
+	}
 	for _, n := range w.nodes {
 		if n.byz || !n.alive {
 			continue
@@ -178,7 +181,7 @@ func RunNet(w *World) {
 	for w.step = 0; w.step < cfg.MaxSteps && w.viol == nil && !w.tainted; w.step++ {
 		w.sampleState()
 		w.checkQuiescentInvariants()
-		if w.viol != nil || w.netDone() {
+		if w.viol != nil || w.timeUp || (w.netDone() && cfg.StabiliseAt == 0) {
 			break
 		}
 		if cfg.StabiliseAt > 0 && w.step >= cfg.StabiliseAt && !w.stabilised {
